@@ -328,6 +328,8 @@ impl Scope {
         {
             return Ok(());
         }
+        #[cfg(kaj_rsass_verif)]
+        crate::verif::yield_point("set_variable");
         if global {
             self.define_global(name, val);
         } else {
